@@ -208,6 +208,9 @@ def cutUpto (upto : Option Bytes) : List Tx → List Tx
 def page (limit : Nat) (before upto : Option Bytes) (l : List Tx) : List Tx :=
   cutUpto upto ((dropBefore before l).take limit)
 
+/-- `parseGetSignaturesForAddressParams`: a limit that is missing, zero or above 1000 means 1000 -/
+def effLimit (l : Nat) : Nat := if l = 0 ∨ l > 1000 then 1000 else l
+
 /-- getSignaturesForAddress with `limit`, `before`, `until` -/
 def gsfaPaged (hf : HF) (gs : List AddrIndex) (a : Bytes) (limit : Nat) (before upto : Option Bytes) : Ans (List Tx) :=
   match gsfaAll (fun g => gsfaEpoch hf g a) gs with
